@@ -361,6 +361,26 @@ def run(ctx: Ctx):
         check_pair(ctx, A, B, "random_pair")
 
 
+def search(ctx: Ctx):
+    """Deeper failing-input search: larger operands, longer rewrite chains, more edits."""
+    rng = ctx.rng
+    for _ in range(ctx.budget(1500, 20000)):
+        alpha = rng.choice(gen.ALPHABETS[:5])
+        A = deep_nfa(rng, alpha[:2], rng.randint(4, 7)) if rng.random() < 0.4 else gen.rand_nfa(rng, 6, alphabet=alpha)
+        B = A
+        for _ in range(rng.randint(1, 4)):
+            r = rng.choice(REWRITES)
+            B2 = call(lambda: r(rng, B))
+            if B2[0] == "ok" and B2[1] is not None and len(B2[1].states) <= 12:
+                B = B2[1]
+        check_pair(ctx, A, B, "search_equivalent")
+        C = edit_one_edge(rng, B)
+        if C is not None:
+            check_pair(ctx, A, C, "search_edit")
+        if ctx.n_prop_fails:
+            return
+
+
 def replay(ctx: Ctx, path: str) -> int:
     data = json.load(open(path))
     rp = data.get("replay", data)
